@@ -164,7 +164,7 @@ def check(prog: Program, res: Result, tier: str) -> None:
         "comparison masks are piecewise constant in the model value",
         "numpy element-wise functions have their textbook derivatives",
     ]
-    res.floors = {"GRAD-deriv": 10, "REG-exh": 10, "DOM-lb": 8, "FG-agree": 5, "KR": 3, "EO-1": 4}
+    res.floors = {"GRAD-deriv": 10, "REG-exh": 10, "DOM-lb": 8, "FG-agree": 6, "KR": 3, "EO-1": 4}
     setup = prog.func("gcp.fg_setup.setup")
     mi = prog.modules["pyttb.gcp.fg_setup"]
     consts, constvals = _module_consts(prog, "pyttb.gcp.handles")
@@ -421,6 +421,17 @@ class _SymExec:
                     continue
                 if isinstance(tgt, ast.Subscript):
                     self._sinks(val, tr)
+                    # X[selector] = v on a tracked local: the generic entry is either left alone or replaced by v
+                    if isinstance(tgt.value, ast.Name) and tgt.value.id in tr.env:
+                        try:
+                            v = tr.tr(val)
+                            if not hasattr(self, "inds"):
+                                self.inds = {}
+                            key = ast.unparse(tgt.slice)
+                            ind = self.inds.setdefault(key, sp.Symbol(f"IND{len(self.inds) + 1}", nonnegative=True))
+                            tr.env[tgt.value.id] = tr.env[tgt.value.id] * (1 - ind) + v * ind
+                        except terms.Untranslatable:
+                            tr.env.pop(tgt.value.id, None)
                     continue
             if isinstance(st, ast.AugAssign):
                 base = st.target
@@ -528,6 +539,18 @@ def _fg_agree(prog: Program, res: Result) -> None:
             m_ = sp.Dummy("m")
             Gs = Gsink.replace(ex.G, lambda a, b: sp.Derivative(ex.F(a, m_), m_).subs(m_, b) if not b.is_Symbol else sp.diff(ex.F(a, b), b))
             z = sp.simplify(dF.doit() - Gs.doit())
+            # the objective is the WEIGHTED sum: with weights given, the per-entry term is weights * f(data, model)
+            if "weights" in opts and config.get("weights") is False and "weights" in tr.env and z == 0:
+                wsym = tr.env["weights"]
+                want = wsym * list(fcalls)[0]
+                dz = sp.simplify(Fv - want)
+                wdesc = "with weights given, the per-entry objective term is weights * loss (a weighted sum, not a mask)"
+                if dz == 0:
+                    res.ok("FG-agree", short, wdesc, where, f"{Fv}")
+                else:
+                    res.bad("FG-agree", short, wdesc, where,
+                            f"the term is {Fv}, not {want}: weights other than 0 and 1 do not weight the loss (objective and gradient agree with each "
+                            "other but both belong to a different objective)")
             if z == 0:
                 res.ok("FG-agree", short, desc, where, f"objective term {Fv}; gradient term {Gsink}")
             else:
